@@ -43,10 +43,81 @@ CHECKS = {
              "lemma. Outside: JSON, radix text conversion, fractions, fractional seconds, negative Julian days.",
         ref="DESIGN.md 4 C20"),
 }
+CHECKS.update({
+    "C07": dict(
+        engine="K-unit slice + K-crate",
+        technique="bounded model checking (Kani/CBMC) of a verbatim source slice of the trampoline in a scripted symbolic environment; natives with a recording evaluator",
+        text="The body of the `XFunction::UserFunction` arm of eval_func_with_values (the tail-call trampoline) is copied verbatim from "
+             "runtime_scope.rs on every run and executed by CBMC against a scripted environment: for every script of <= 5 symbolic steps "
+             "(tail call / value / violation) and every recursion limit L <= 3 the result is the scripted value iff at most L consecutive tail "
+             "calls occurred, else MaximumRecursion after exactly L+1; at most one frame is ever live; call counter and deadline are checked "
+             "once before the first frame; each frame receives the previous tail call's arguments. The short-circuit natives (if, if_error, "
+             "and, or) are decided to hand the caller's tail flag to the selected branch only (K-crate, recording evaluator).",
+        note="Trusted: Kani/CBMC, the shim environment of the slice (/verif/kani/unit/slices/trampoline.rs). Outside: tail-position "
+             "detection in eval's Call arm, equivalence with ordinary recursion for real bodies, scripts > 5 steps, L > 3.",
+        ref="DESIGN.md 4 C07"),
+    "C11": dict(
+        engine="K-unit + K-crate",
+        technique="bounded model checking (Kani/CBMC): permission lookup on symbolic write sequences; effectful natives with recording writer/clock/rng doubles",
+        text="PermissionSet get/allow/forbid for every sequence of <= 3 symbolic writes over the six permissions (all 64 assignments) equals "
+             "`last write or documented default`; check_permission names the permission; the natives debug, __std_unix_now, __std_sleep, "
+             "regex are called through their real registration with a symbolic permission and recording doubles: denied => "
+             "PermissionError(<that id>) and writer, clock and rng untouched; granted => exactly one write / one clock read.",
+        note="Trusted: Kani/CBMC; std HashMap replaced by an association-list model; stubs listed in the evidence. Outside: display (dyn "
+             "factory), sample natives, granted branch of sleep/regex (FFI / regex compilation), prelude wrappers and lazy sequences.",
+        ref="DESIGN.md 4 C11"),
+    "C12": dict(
+        engine="K-unit slice + X-smt",
+        technique="bounded model checking (Kani/CBMC) of the numeric-literal arm of the parser (verbatim slice) on symbolic literal text; SMT (QF_SLIA) totality of the interner",
+        text="The `Rule::NUMBER_ANY` arm of parse_expr is copied verbatim on every run and decided on all 33-digit hex literals (leading "
+             "zeros cover shorter ones): no crash, exact value; the interner's index handling is decided total on all identifiers <= 40 "
+             "characters (no parse unwrap, no unbounded table). One recorded finding: hex literals above i128::MAX panic the compiler.",
+        note="Trusted: Kani/CBMC, z3/cvc5, the slice's shim environment, stubs for std's float parser and str::contains. Outside: the pest "
+             "parser, escapes (regex), error rendering, determinism of whole compilations, binary literals, separators.",
+        ref="DESIGN.md 4 C12"),
+    "C13": dict(
+        engine="K-crate + K-unit slice",
+        technique="bounded model checking (Kani/CBMC) of the checked float constructor over all 2^64 bit patterns and of float natives through their real registration",
+        text="XValue::float yields a Float only for finite inputs (all bit patterns); add/sub/mul/div/neg natives yield the IEEE result when "
+             "finite and an error value otherwise (second operand from a constant table in the quick tier, both symbolic in thorough); "
+             "int.to_float yields finite-or-error for ANY answer of num-bigint's to_f64 (stubbed by contract). One recorded finding: the "
+             "literal 1e999 compiles to Float(inf).",
+        note="Trusted: Kani/CBMC's IEEE-754 encoding; stubs listed in evidence. Outside: libm/statrs functions (all return through the "
+             "checked constructor), float mod, JSON numbers, prelude helpers.",
+        ref="DESIGN.md 4 C13"),
+    "C18": dict(
+        engine="K-unit",
+        technique="bounded model checking (Kani/CBMC) of src/util/fenced_string.rs on a shape table x symbolic indices",
+        text="For every string of a table covering all sequences of UTF-8 width classes up to length 2 (quick; 3 in thorough) plus case-mapping "
+             "troublemakers, and ALL slice bounds a <= len, b <= len+2, end present or not: from_string establishes the representation "
+             "invariant, len counts code points, substr/substring return exactly the code points a..b with a correct table; concatenation "
+             "and push_ascii keep the invariant; eq/cmp follow the text.",
+        note="Trusted: Kani/CBMC. Outside: strings outside the table / longer than 3 characters, case mapping tables of std, literal "
+             "forms and escapes, prelude string functions, the str natives beyond the FencedString kernel.",
+        ref="DESIGN.md 4 C18"),
+    "C19": dict(
+        engine="K-unit",
+        technique="bounded model checking (Kani/CBMC) of src/util/trysort.rs and try_heap.rs with a comparator that fails at a symbolic call",
+        text="try_sort on 3-4 (quick) / 4-6 (thorough) elements with symbolic 2-bit keys: sorted, stable, a permutation; when the "
+             "comparator fails at ANY call index (error value or violation) that failure is returned and the slice is still a permutation "
+             "of the input. insert_head on <= 5 elements likewise. TryHeap push/pop of <= 4 elements: pops ordered, nothing lost or duplicated.",
+        note="Trusted: Kani/CBMC (pointer checks on for the unsafe code). Outside: `merge` (CBMC models its symbolic-length copy imprecisely: "
+             "removed, see DESIGN 5b), slices > 6, derived eq/cmp/hash factories, formatting.",
+        ref="DESIGN.md 4 C19"),
+    "C03": dict(
+        engine="X-smt + K-crate",
+        technique="SMT (QF_SLIA) injectivity of the identifier interner read from source; bounded model checking (Kani/CBMC) of capture cells",
+        text="The interner's regex literal, index handling and the CNAME grammar rule are read from source on every run: no two distinct "
+             "identifiers of <= 14 characters intern to the same symbol (z3 + z3 5.1/cvc5). Capture-cell creation (from_spec) and runtime "
+             "resolution of pending captures over a 3-level scope stack with symbolic cell contents agree with a reference walker.",
+        note="Trusted: z3/cvc5, the 40-line regex-to-SMT converter, Kani/CBMC. Outside: name lookup through parents, forward-reference "
+             "gating, one-time defaults, closures through builtins, anything needing a compiled program.",
+        ref="DESIGN.md 4 C03"),
+})
 NA = {
     "C02": "needs the pest parser and whole-program evaluation against a reference evaluator; neither can be encoded for CBMC/SMT here (DESIGN.md 4 C02)",
 }
-PENDING = ["C01", "C03", "C04", "C05", "C06", "C07", "C10", "C11", "C12", "C13", "C15", "C16", "C17", "C18", "C19"]
+PENDING = ["C01", "C04", "C05", "C06", "C10", "C15", "C16", "C17"]
 
 
 def main():
